@@ -926,8 +926,9 @@ func TestVerifC13(t *testing.T) {
 		legacy := []c13Ev{do("createleg", "L", "", ""), do("addsvc", "L", "A", ""), do("addkey", "L", "", ""), do("deact", "L", "", "")}
 		exec(c13Variants(fmt.Sprintf("l%d", round), legacy, m, rng, false)[0])
 	}
-	c13RequestWorlds(rng, thorough, exec)
-	c13CleanupWorlds(rng, thorough, exec)
+	rng2 := rand.New(rand.NewSource(seed*7919 + 77)) // own stream: the older worlds keep their inputs
+	c13RequestWorlds(rng2, thorough, exec)
+	c13CleanupWorlds(rng2, thorough, exec)
 	for i, seq := range fixed {
 		for c, m := range c13Configs {
 			// every cut with both methods; on the single-method nodes every cut of the create, a third of the cuts of the longer ones (quick)
@@ -992,7 +993,9 @@ func c13RequestWorlds(rng *rand.Rand, thorough bool, exec func([]c13Ev)) {
 		for _, g := range good {
 			names = append(names, copt(u(), g))
 		}
-		world(m, c13Prefs[(ci*3+1)%len(c13Prefs)], names)
+		if thorough || ci == 0 || ci == 3 {
+			world(m, c13Prefs[(ci*3+1)%len(c13Prefs)], names)
+		}
 		// a did:nuts Commit failure / a stop on a Create with options: nothing stays, the name can be taken afterwards
 		for _, f := range []struct {
 			f string
@@ -1006,7 +1009,7 @@ func c13RequestWorlds(rng *rand.Rand, thorough bool, exec func([]c13Ev)) {
 			world(m, c13Prefs[rng.Intn(len(c13Prefs))], []c13Ev{do("addsvc", "s1", "A", ""), e, {Op: "tick", D: 70}, {Op: "sweep"}, copt(u(), "s:s1"), do("addkeyka", "s1", "", ""), do("addsvc", "s1", "B", "")})
 		}
 	}
-	rounds := 6
+	rounds := 4
 	if thorough {
 		rounds = 60
 	}
@@ -1044,7 +1047,7 @@ func c13CleanupWorlds(rng *rand.Rand, thorough bool, exec func([]c13Ev)) {
 			do("addkey", "s1", "", ""), do("deact", "s1", "", "")}
 		for oi, op := range ops {
 			for _, f := range []string{"tx2err", "failtx2"} {
-				if !thorough && rng.Intn(3) == 0 {
+				if !thorough && rng.Intn(3) != 0 {
 					continue
 				}
 				n++
